@@ -58,6 +58,14 @@ def check(chk):
     chk.judge(good, 'C32.index', exf, 'synchronous raise -> _put_result(exc, idx, False) (directly or via submit past the recursion bound)', 'synchronous failure arm changed')
     chk.judge("self._exec_depth < self.max_error_recursion" in s and s.count('self._exec_depth') >= 3, 'C32.index', exf, 'recursion depth bounded', 'recursion bound changed')
     os_, oe = m.func('_ConcurrentExecutor._on_success'), m.func('_ConcurrentExecutor._on_error')
+    # a paged ResponseFuture runs its callbacks again for every later page: the executor detaches itself before handing the result on
+    chk.rule('C32.once', '_on_success clears the future\'s callbacks before it stores the result (one result per statement, also when the ResultSet is paged further)')
+    gos = CFG(os_)
+    clr = [n for n in gos.stmt_nodes() if n.kind == 'stmt' and src(n.ast) == 'future.clear_callbacks()']
+    put = [n for n in gos.stmt_nodes() if n.kind == 'stmt' and 'self._put_result(' in src(n.ast)]
+    chk.judge(len(clr) == 1 and len(put) == 1 and gos.dominates(clr[0], put[0]), 'C32.once', os_, 'future.clear_callbacks() precedes _put_result',
+              'the executor stays registered on the future: when the caller iterates a multi-page ResultSet the future fires its callbacks for every further page, _put_result runs again '
+              'for the same index - an extra statement is started and the results queue holds a duplicate')
     chk.judge('self._put_result(ResultSet(future, result), idx, True)' in src(os_), 'C32.index', os_, '_on_success -> _put_result(ResultSet, idx, True)', 'success arm changed')
     chk.judge('self._put_result(result, idx, False)' in src(oe), 'C32.index', oe, '_on_error -> _put_result(error, idx, False)', 'error arm changed')
     lst = m.func('ConcurrentExecutorListResults._put_result')
